@@ -260,6 +260,13 @@ fn normalise(mut s: Step) -> Step {
     s
 }
 
+/// The four shapes that used to be excluded by construction are repaired in sozu (known_findings.jsonl,
+/// `fixed`); generated cases now play them like the regression files do. Set VP_C02_EXCLUSIONS to get
+/// the old steering back (for running against an old tree).
+fn lenient(case: &Case) -> bool {
+    !case.strict && std::env::var("VP_C02_EXCLUSIONS").is_ok()
+}
+
 pub fn strategy() -> impl Strategy<Value = Case> {
     (
         any::<u64>(),
@@ -779,7 +786,7 @@ pub fn scenario(lab: &mut Lab, case: &Case) -> CheckResult {
                 // known findings C02/proxy-answer-appended-to-started-response and
                 // C02/truncated-body-presented-complete: a response that carries `Connection: close` and is
                 // cut after its head. Excluded by construction: the same cut is played without the header.
-                if conn_close && !case.strict && cut_offset(&bytes, at) >= head_len_of(&bytes) {
+                if conn_close && lenient(case) && cut_offset(&bytes, at) >= head_len_of(&bytes) {
                     conn_close = false;
                     excluded += 1;
                     bytes = response_bytes(n, resp_seed, s.resp_len, &s.resp_framing, false).0;
@@ -981,8 +988,8 @@ pub fn scenario(lab: &mut Lab, case: &Case) -> CheckResult {
                             fail!("C02/relayed-body-differs", "{ctx}: the backend sent a {}-byte body ({}), the client received {} bytes ending cleanly (framing {:?}); first difference at offset {off}", p.resp_body.len(), s.resp_framing_name(), m.body.len(), m.framing);
                         }
                         keep_connection = !announces_close(m);
-                        if !case.strict {
-                            // known finding C02/rest-of-request-answered-as-new-request, excluded by construction:
+                        if lenient(case) {
+                            // (repaired) finding C02/rest-of-request-answered-as-new-request, formerly excluded by construction:
                             // the client does not send the rest of its request and gives the connection up
                             excluded += 1;
                             classes.push("early_answer->client_gives_up(known)");
@@ -1116,14 +1123,14 @@ pub fn scenario(lab: &mut Lab, case: &Case) -> CheckResult {
                             }
                             expect_nothing_more(i, label, c, &mut classes)?;
                         }
-                        // known finding C02/status-for-cause:client_stops_mid_body:504: once the head is routed, a
-                        // client that stops sending is answered by the backend-timeout arm. Not excluded by
-                        // construction but accepted and counted, so that the rest of the oracle (one well-formed
-                        // answer in time, nothing complete at the backend, later requests served) still applies.
-                        Got::Clean(m) if m.status() == Some(504) && matches!(s.cause, Cause::ClientStopsMidBody(_)) && !case.strict => {
+                        // The property speaks of requests sozu has FULLY received; for a request the client never
+                        // finished it prescribes no status. Once the head is routed sozu answers such a client from
+                        // its backend-timeout arm (504) instead of 408: admitted (an earlier version of this check
+                        // demanded 408 and was wrong to). The rest of the oracle (one well-formed answer in time,
+                        // nothing complete at the backend, later requests served) still applies.
+                        Got::Clean(m) if m.status() == Some(504) && matches!(s.cause, Cause::ClientStopsMidBody(_)) => {
                             check_proxy_answer(i, label, m, case.keepalive_answers)?;
-                            excluded += 1;
-                            classes.push("client_stops_mid_body->504(known)");
+                            classes.push("client_stops_mid_body->504");
                             // the connection holds half a request: the client gives it up
                         }
                         _ => fail!(format!("C02/status-for-cause:{label}:{}", status_of(&got)), "{ctx}: expected 408, got {what}"),
@@ -1161,7 +1168,7 @@ pub fn scenario(lab: &mut Lab, case: &Case) -> CheckResult {
                                 // up. Known finding C02/rest-of-request-answered-as-new-request: the half body left
                                 // in the proxy's buffer is answered with a 400 of its own; not looked at unless strict.
                                 keep_connection = false;
-                                if case.strict {
+                                if !lenient(case) {
                                     if let Err(f) = expect_nothing_more(i, label, c, &mut classes) {
                                         fail!("C02/rest-of-request-answered-as-new-request", "{ctx}: answered {st} without `Connection: close` while half of the request body had arrived; {}", f.message);
                                     }
@@ -1195,7 +1202,7 @@ pub fn scenario(lab: &mut Lab, case: &Case) -> CheckResult {
             c.served += 1;
         }
         after_keepalive_504 = answered_504 && keep_connection;
-        if after_keepalive_504 && !case.strict && i + 1 < case.steps.len() {
+        if after_keepalive_504 && lenient(case) && i + 1 < case.steps.len() {
             // known finding C02/timed-out-backend-connection-reused, excluded by construction: the client
             // does not use this connection again
             excluded += 1;
@@ -1377,7 +1384,7 @@ pub fn run(args: &Args) -> i32 {
     ev.assume("'no request stays unanswered beyond the configured timeouts' is observed to a deadline of governing timeout + 3 s, not forever. Governing: back_timeout for a silent or late backend, request_timeout (first request of a connection) or front_timeout for a client that stops, front_timeout for the abort after a cut response, back_timeout + front_timeout for the abort after a backend that goes silent mid-response (observed: once a response has started the proxy does not close the client connection when the backend fails, the front timeout does), connect_timeout for refusing / closing backends, 0 otherwise");
     ev.assume("requests answered by the proxy itself carry at most 1000 body bytes written together with the head, so the answer is not lost to a kernel reset caused by unread request bytes; a cut by RST sent at once may overtake the prefix in the proxy's receive queue (kernel RST timing is approximate)");
     ev.assume("a backend cut inside the response head admits 502 or a bare close; a 502 / 504 is admitted after any cut or stall when it is the only thing the client receives; a backend that closes its idle keep-alive connection between two requests admits 502 for the next request on it as well as a transparent reconnect");
-    ev.assume("five known findings are kept out of the generated cases (counted in excluded_known; cases with `strict`, i.e. the regression files, play them): (1) a cut after the head of a response carrying `Connection: close` is played without that header [C02/proxy-answer-appended-to-started-response:502, C02/truncated-body-presented-complete:cl]; (2) a client stopping inside the body may be answered 504 instead of 408 [C02/status-for-cause:client_stops_mid_body:504]; (3) after a backend timeout answered with a keep-alive 504 the client opens a new connection [C02/timed-out-backend-connection-reused]; (4) after a response relayed before the request body had ended the client does not send the rest and closes, and after a keep-alive 502/503 on half a request what follows is not looked at [C02/rest-of-request-answered-as-new-request]");
+    ev.assume("no shape is steered around any more: the four findings this check raised (default answer behind a started response, short Content-Length body presented complete, timed-out backend connection reused, rest of a request answered as a new request) are repaired in sozu and generated cases play them; a client that stops inside its request body is answered 504 or 408 (the property prescribes no status for a request that was never fully received)");
     for (class, floor) in if args.replay.is_some() {
         vec![]
     } else {
